@@ -18,6 +18,8 @@
 (***************************************************************************)
 EXTENDS Controller
 
+HA == INSTANCE HAConfig
+
 Trace == ndJsonDeserialize("trace.ndjson")
 
 VARIABLES l, bad, drift
@@ -39,10 +41,19 @@ Bad(e, inv, ok) == IF ok THEN {} ELSE {[tr |-> e.tr, step |-> e.step, inv |-> in
 
 Settled(e) == ~e.err
 
+HasFacts(e) == "facts" \in DOMAIN e
+
 JudgeA(e) ==
     Bad(e, "Converged", Settled(e) => (Len(e.fresh) = 0 \/ e.inc = e.fresh[1])) \cup
+    \* C05: exactly the current model on disk -- nothing stale, nothing missing, nothing twice
+    Bad(e, "DiskExact", Settled(e) => ((Len(e.freshx) = 0 \/ e.incx = e.freshx[1]) /\ Len(e.dups) = 0)) \cup
+    \* C07: the files of the incremental and of the fresh controller are loadable
+    (IF HasFacts(e) /\ Settled(e) THEN Bad(e, "WellFormed:" \o HA!FirstBroken(e.facts), HA!WellFormed(e.facts)) ELSE {}) \cup
+    (IF "ffacts" \in DOMAIN e THEN Bad(e, "WellFormedFresh:" \o HA!FirstBroken(e.ffacts), HA!WellFormed(e.ffacts)) ELSE {}) \cup
     Bad(e, "Deterministic", \A i, j \in 1..Len(e.fresh) : e.fresh[i] = e.fresh[j]) \cup
-    Bad(e, "RunningOK", Settled(e) => e.runeq)
+    Bad(e, "RunningOK", Settled(e) => e.runeq) \cup
+    \* C12: the controller's own retry succeeds once the fault is gone
+    Bad(e, "RetrySucceeds", ~e.err)
 
 Expected(e) == FullModel(IngOf(e.cluster), EpsOf(e.cluster), SecOf(e.cluster))
 
